@@ -1,20 +1,22 @@
 PROPERTY = "C15"
 ENTRY = {
         "text": "Two TLA+ specifications written from the statement. RuleList.tla (parser): list texts are token sequences (rule atoms, white space, "
-                "comment/title starters, HTML, control bytes, VT/FF, long lines, LF/CRLF/bare CR endings); TLC enumerates every text of up to 3 lines over 17 line shapes "
-                "and up to 4 lines over 9 shapes, checks NormalFormIsFixedPoint / NormalIsClean / the enumerated failures on the spec, and every text is replayed into the real "
+                "comment/title starters, #-lines that are not plain comments (##, #@#, #?#, #$#, #%#), HTML, control bytes, VT/FF, long lines, LF/CRLF/bare CR endings; "
+                "the parser's mode before/after the title line is explicit state and the treatment of such #-lines a policy that must not depend on it); "
+                "TLC enumerates every text of up to 3 lines over 18 line shapes and up to 4 lines over 10 shapes, checks NormalFormIsFixedPoint / NormalIsClean / the enumerated failures on the spec, and every text is replayed into the real "
                 "rulelist.Parser (admissible outcome, stored bytes = conc(Normal), count, and re-parse of the stored bytes gives the same count, checksum and bytes). "
                 "FilterRefresh.tla (refresh state machine: per list file/count/checksum/rules in force; forced block|allow refresh, scheduled refresh of any due set, restart; "
                 "per request one of ok(text), undetectable unframed cut, connection error, non-200, cut before/after headers, mid-line, at a line boundary with Content-Length or chunked framing, "
-                "HTML, binary, missing/directory local file): FailureIsNoOp, UnchangedChecksumNotRewritten, SuccessStoresNormalForm, RestartChangesNothing asserted on every transition; "
+                "HTML, binary, missing/directory local file): FailureIsNoOp, UnchangedChecksumNotRewritten, SuccessStoresNormalForm, RestartChangesNothing (the stored file is re-parsed: same count, same checksum) asserted on every transition; "
                 "every transition is emitted as an edge and edge-covering tours are walked on real DNSFilters against a scripted httptest list server, comparing after every step the file "
-                "bytes, whether the file was replaced (inode), rules_count from the real status handler and the rules in force via CheckHost. Random larger texts and random histories over "
+                "bytes, whether the file was replaced (inode), rules_count from the real status handler, whether the remembered checksum changed, and the rules in force via CheckHost. Random larger texts and random histories over "
                 "four lists are recorded and validated by TraceRuleList.tla / TraceFilterRefresh.tla.",
         "design_ref": "DESIGN.md section 4 C15",
         "note": "Trusted: TLC; conc()/lex() of zz_verif_c15_test.go; loopback httptest server with hijacked connections as the wire; scheduled refresh driven by calling "
                 "periodicallyRefreshFilters with LastUpdated back-dated (no timer loop). Not compared: last_updated / file mtime, list title, error wording. "
                 "Statement-silent cases are sets of admissible outcomes (control byte inside a comment, HTML-looking line after real rules, line > 64 KiB). "
                 "A cut at a line boundary without framing is a success with the shorter text (named UndetectableCut). "
-                "Open known finding: scheduled refresh skips the engine rebuild when every list of one kind failed (proposed fix in proposed_fixes/).",
+                "The parser policy for #-lines that are not plain comments is measured on a title-less text and then demanded everywhere. "
+                "Negative controls that must fail in TLC: FilterRefresh.asis.cfg (pre-fix early return before the engine rebuild; fixed in /repo 9116a9d) and RuleList.modes.cfg (mode-dependent policy).",
         "technique": "TLA+ specs enumerated by TLC; exhaustive vector replay + edge-covering tours on the real code; TLC trace validation of recorded runs",
     }
